@@ -280,6 +280,10 @@ func extractZip(zipFile, dest string) error {
 	defer r.Close()
 	decompress := func(file *zip.File) error {
 		path := filepath.Join(dest, file.Name)
+		// Reject entries that would land outside dest (zip slip: "../x", "a/../../x").
+		if cleanDest := filepath.Clean(dest); path != cleanDest && !strings.HasPrefix(path, cleanDest+string(os.PathSeparator)) {
+			return fmt.Errorf("%s: illegal file path", path)
+		}
 
 		if file.FileInfo().IsDir() {
 			return os.MkdirAll(path, 0700)
